@@ -89,6 +89,7 @@ class VCGen(SpecMixin, CallMixin, StmtMixin, ExprMixin, Engine):
         """generate the VCs of one function under contract; returns the list of new VCs"""
         n0 = len(self.vcs)
         c, fi = self.prepare(qual)
+        self.use_axioms(c)
         st = self.init_state(c, fi)
         entry = st.copy()
         entry.old = None
